@@ -11,10 +11,19 @@ def run(prog, rep):
         "cursor position of each entry write (nearest seek / sequential run on every backward path) is slot HDR+ENT*i "
         "with i the element's list index; flush-on-exit; parse-on-enter; size-from-fs; read-through-handle."
     )
-    M.dirty_entry(ct, rep)
-    M.slot_position(ct, rep)
-    M.flush_on_exit(ct, rep)
-    M.parse_on_enter(ct, rep)
-    M.size_from_fs(ct, rep)
-    M.get_block_reads_disk(ct, rep)
+    rep.attempt(lambda: M.dirty_entry(ct, rep))
+    rep.attempt(lambda: M.slot_position(ct, rep))
+    rep.attempt(lambda: M.flush_on_exit(ct, rep))
+    rep.attempt(lambda: M.parse_on_enter(ct, rep))
+    rep.attempt(lambda: M.size_from_fs(ct, rep))
+    rep.attempt(lambda: M.get_block_reads_disk(ct, rep))
+    # the table written to disk re-parses to the table in memory: TdfEntry codec symmetric field by field (dates included)
+    from ..codecs import Codecs
+    from .c01 import attr_linkage, report_unit
+    cd = Codecs(prog)
+    cd.flag_errors(rep)
+    eu = cd.units.get("TdfEntry")
+    if eu is not None:
+        rep.attempt(report_unit, rep, cd, eu, rule="entry-codec-symmetry")
+        rep.attempt(attr_linkage, rep, cd, eu, rule="entry-codec-symmetry")
     rep.not_decided += ["OS write-back after flush() (no fsync is claimed by the property)"]
